@@ -109,6 +109,7 @@ func malformedMain(args []string) {
 
 	next := 0
 	children := 0
+	hangs := 0
 	for next < len(jobs) {
 		end := next + *batch
 		if end > len(jobs) {
@@ -123,7 +124,7 @@ func malformedMain(args []string) {
 		resFile := dir + "/res.ndjson"
 		os.Remove(resFile)
 		cmd := exec.Command(os.Args[0], "malformed-child", "-jobs", jobFile, "-out", resFile, "-repo", *repo,
-			"-mem", strconv.Itoa(*memMB))
+			"-mem", strconv.Itoa(*memMB), "-hangms", strconv.Itoa(mfHangMillis(hangs)))
 		var stderr bytes.Buffer
 		cmd.Stderr = &stderr
 		cmd.Stdout = os.Stderr
@@ -161,6 +162,7 @@ func malformedMain(args []string) {
 		}
 		if code == 4 {
 			// the child reported a confirmed hang for its last completed job and left; continue after it
+			hangs++
 			next += completed
 			continue
 		}
@@ -187,6 +189,16 @@ func malformedMain(args []string) {
 		next += completed + 1
 	}
 	fmt.Fprintf(os.Stderr, "malformed: %d jobs in %d child processes\n", len(jobs), children)
+}
+
+// Hang rule: 5 s (normal: < 5 ms), confirmed by one re-run.  Once a hang has been confirmed that way the
+// run's verdict no longer depends on later ones; to keep a badly broken tree from costing 10 s per case
+// the wait drops to 2 s (still re-run once, still >= 400 x the normal time).
+func mfHangMillis(confirmed int) int {
+	if confirmed == 0 {
+		return 5000
+	}
+	return 2000
 }
 
 func tail(s string, n int) string {
